@@ -5,7 +5,7 @@ import time
 
 EFF = {"pa": "print('a')", "pae": "print('a', end='')", "pn": "print()", "pas": "print('a ')",
        "pab": "print('a', 'b', sep='\\t')", "w": "sys.stdout.write('b')", "sp": "print('  ')",
-       "pnn": "print('\\n')", "in": "v = input('p')", "st": "sys.settrace(None)",
+       "pnn": "print('\\n')", "in": "v = input('p')", "ina": "v = ask('p')", "st": "sys.settrace(None)",
        "im": "import helper_mod", "cb": "hook()"}
 HELPER_MOD = "def helper_value():\n    return 41\nLOADED = helper_value() + 1\n"
 EXTRA_FILES = {"helper_mod.py": HELPER_MOD, "bad_mod.py": "y = 2\nraise ValueError('in helper file')\n",
@@ -63,6 +63,7 @@ STUDENT_LINE = {"exc", "excBrokenStr", "excBrokenRepr", "raiseSysExit", "sysexit
                 "x:oserror", "reraise", "nested", "x:noname", "x:lowername", "x:group", "x:unicode", "x:memory", "x:notimpl",
                 "x:warn", "x:stopasync", "x:argsnonstr", "x:tuplekey", "x:chained", "x:ctxchained", "x:syntaxBare"}
 PRELUDE = """import sys
+ask = input
 class BrokenStr(Exception):
     def __str__(self):
         raise RuntimeError('no str for you')
